@@ -620,3 +620,80 @@ pub fn install_hang_watchdog(ctx: &Ctx, level: &'static str, secs: u64) {
         exit_process(code);
     });
 }
+
+/// upper tail probability of the chi-square law with `dof` degrees of freedom: Q(dof/2, x/2) (regularised incomplete gamma,
+/// series for x < a+1, continued fraction otherwise)
+pub fn chi2_sf(x: f64, dof: f64) -> f64 {
+    if x <= 0. || dof <= 0. {
+        return 1.;
+    }
+    let a = dof / 2.;
+    let xx = x / 2.;
+    let gln = ln_gamma(a);
+    if xx < a + 1. {
+        // series for P(a, x)
+        let mut ap = a;
+        let mut sum = 1. / a;
+        let mut del = sum;
+        for _ in 0..10_000 {
+            ap += 1.;
+            del *= xx / ap;
+            sum += del;
+            if del.abs() < sum.abs() * 1e-16 {
+                break;
+            }
+        }
+        let p = sum * (-xx + a * xx.ln() - gln).exp();
+        (1. - p).max(0.)
+    } else {
+        // continued fraction for Q(a, x) (modified Lentz)
+        let tiny = 1e-300;
+        let mut b = xx + 1. - a;
+        let mut c = 1. / tiny;
+        let mut d = 1. / b;
+        let mut h = d;
+        for i in 1..10_000 {
+            let an = -(i as f64) * (i as f64 - a);
+            b += 2.;
+            d = an * d + b;
+            if d.abs() < tiny {
+                d = tiny;
+            }
+            c = b + an / c;
+            if c.abs() < tiny {
+                c = tiny;
+            }
+            d = 1. / d;
+            let del = d * c;
+            h *= del;
+            if (del - 1.).abs() < 1e-16 {
+                break;
+            }
+        }
+        (-xx + a * xx.ln() - gln).exp() * h
+    }
+}
+
+fn ln_gamma(x: f64) -> f64 {
+    // Lanczos approximation
+    let g = [76.18009172947146, -86.50532032941677, 24.01409824083091, -1.231739572450155, 0.1208650973866179e-2, -0.5395239384953e-5];
+    let mut y = x;
+    let tmp = x + 5.5 - (x + 0.5) * (x + 5.5).ln();
+    let mut ser = 1.000000000190015;
+    for c in g {
+        y += 1.;
+        ser += c / y;
+    }
+    -tmp + (2.5066282746310005 * ser / x).ln()
+}
+
+#[cfg(test)]
+mod tests {
+    #[test]
+    fn chi2_tail() {
+        // reference values: P(chi2_1 > 3.841) = 0.05, P(chi2_10 > 18.307) = 0.05, P(chi2_119 > 212) ~ 4e-7
+        assert!((super::chi2_sf(3.841458820694124, 1.) - 0.05).abs() < 1e-6);
+        assert!((super::chi2_sf(18.307038053275146, 10.) - 0.05).abs() < 1e-6);
+        assert!((super::chi2_sf(37.33, 1.) - 1e-9).abs() < 2e-10);
+    }
+}
